@@ -32,6 +32,10 @@ CHECKS = {
   text="HttpError's six public constructors, add_header/with_header (0..2 attached headers) and into_response executed from MIR with the status as a symbolic 16-bit value over the whole admissible range, and messages / error code / request id / header values as distinct opaque strings: z3 proves per path that no constructor panics, the response status equals the error's status, the JSON body carries request id, external message (the canonical reason where the constructor says so, from the http crate's table) and error code (omitted iff None), the headers are exactly the attached ones plus content-type: application/json and x-request-id = the request id, and (non-interference) the internal-message symbol occurs nowhere in the response. HandlerError::{status_code,into_response} stamp a handler-built response with exactly one x-request-id. ErrorStatusCode / ClientErrorStatusCode from_u16, from_status, as_client_error are decided over all u16 twice: by MIRSYM (models of http::StatusCode) and by Kani/CBMC on the compiled code of dropshot and the real http crate.",
   note="Trusted: http::StatusCode range predicates and canonical_reason table (read from the registry source), HeaderMap/Builder models, serde_json rendering kept uninterpreted. Assumes the request id is a legal header value (server-generated UUID). Outside: request-id uniqueness and the stamping in server.rs::http_request_handle over request sequences.",
   tech="symbolic execution of MIR + SMT (bit-vector status, opaque strings, term-occurrence non-interference); Kani/CBMC for the status refinement types; native replay", ref="DESIGN.md §5 C13"),
+ "C14": dict(
+  text="pagination::{serialize_page_token, deserialize_page_token, deserialize_whichpage}, ResultsPage::new and RequestContext::page_limit executed from MIR. The selector is an opaque value with a symbolic 64-bit JSON length; an incoming token has symbolic length, decodability and parse outcome. z3 proves per path: an issued token carries the version tag and the selector, is never longer than MAX_TOKEN_LENGTH, and is accepted back as the same selector (this is where an asymmetric size bound or a different base64 engine on one side shows up); issuing fails only with a 5xx when the token would not fit; an incoming token is accepted iff length <= bound, base64 decodes and JSON parses (never a panic); with page_token present the result is Next(its selector) and no other parameter reaches the result, without it First(all parameters); ResultsPage::new returns a token iff the page is non-empty, derived from the last item; page_limit = min(client limit, server max) or the default, never 0, over all 32-bit values. Wire-level witnesses (token sizes around the bound, malformed tokens, limits incl. 0/negative/non-numeric) on a loop-back server.",
+  note="Trusted: serde_json round trip parse(json(v)) = Ok(v); base64 decode_E(encode_E(x)) = Ok(x) and the padded length formula (engines are distinguished by the constant read from the MIR); serde's BTreeMap deserialisation and from_map are nondeterministic contracts here. Rejection of limit=0 / negative / non-numeric is third-party (serde_urlencoded + NonZeroU32) and only exercised on the wire.",
+  tech="symbolic execution of MIR + SMT (bit-vectors, uninterpreted codecs with round-trip axioms); native replay incl. loop-back server", ref="DESIGN.md §5 C14"),
 }
 NA_DEFAULT = "check under construction in this round (see DESIGN.md §5/§7); not yet claimed"
 NA = {}
